@@ -407,7 +407,8 @@ mutual
 /-- `complete_value(return_type, field_details_list, info, path, result)` -/
 def completeValue (cx : Ctx) (t : TypeRef) (fds : List FieldDetails) (path : IPath) :
     RVal → M Json
-  | .raise tag => M.throw (.raw (.raised tag))
+  | .raise tag none => M.throw (.raw (.raised tag))
+  | .raise tag (some p) => M.throw (.located { path := some p, kind := .raised tag })
   | .null => completeNull t
   | .leaf l => completeNamed cx t fds path (some l) .missing nullChild
   | .list items =>
